@@ -1007,6 +1007,14 @@ fn path_ids(alpha: &[Env], path: &[usize]) -> Vec<String> {
 }
 
 pub fn replay(payload: &Value) -> i32 {
+	if payload["kind"] == "stalled-request" {
+		let root = scratch_root();
+		let base = make_base(&root);
+		let m = METHODS.iter().copied().find(|x| Some(*x) == payload["method"].as_str()).unwrap_or("accounts");
+		let p = stalled_request_case(&base, &format!("{}/c13-replay-stall", root), m);
+		println!("stalled-request case {}: {:?}", m, p);
+		return if p.is_empty() { 0 } else { 1 };
+	}
 	let alpha = alphabet();
 	let ids: Vec<String> = payload["path"]
 		.as_array()
@@ -1127,6 +1135,69 @@ impl Acc {
 		}
 		None
 	}
+}
+
+/// A request whose upload stalls while the session key is re-negotiated: request A (sealed under the current
+/// key K1) is handed to the handler with half of its body, a complete key exchange follows on the side
+/// (K2), then the rest of A arrives. Whatever becomes of A itself, the session must afterwards be the one
+/// the key exchange set up: K2 is served, the superseded K1 is refused. (The BFS posts whole requests one
+/// after the other; this is the one interleaving a listener that copies the key around could get wrong.)
+fn stalled_request_case(base: &Base, dir: &str, m: &'static str) -> Vec<(String, String)> {
+	use std::future::Future;
+	let mut problems = vec![];
+	let mut s = Session::new(base, dir);
+	let o0 = s.observe(base);
+	let (st1, o1) = s.step(base, &Env::PlainInit, &o0);
+	if st1.desync.is_some() || s.cur.is_none() {
+		return vec![("__mach__".into(), format!("first key exchange failed: {:?}", st1.desync))];
+	}
+	let body_a = match s.build(&Env::Enc(KeySel::Cur, m)) {
+		Some(b) => b,
+		None => return vec![("__mach__".into(), "cannot build request A".into())],
+	};
+	let (mut tx, body) = Body::channel();
+	let req = Request::post("http://127.0.0.1/v3/owner").body(body).unwrap();
+	let mut fut = s.handler.post(req);
+	let half = body_a.len() / 2;
+	let first: Vec<u8> = body_a[..half].to_vec();
+	let rest: Vec<u8> = body_a[half..].to_vec();
+	{
+		let waker = futures::task::noop_waker();
+		let mut cx = std::task::Context::from_waker(&waker);
+		let _ = futures::executor::block_on(tx.send_data(first.into()));
+		let _ = fut.as_mut().poll(&mut cx);
+	}
+	// the key exchange on the side
+	let (st2, o2) = s.step(base, &Env::PlainInit, &o1);
+	if st2.desync.is_some() || s.prev.is_none() {
+		return vec![("__mach__".into(), format!("second key exchange failed: {:?}", st2.desync))];
+	}
+	// the rest of A
+	let _ = catch(|| {
+		futures::executor::block_on(async move {
+			let _ = tx.send_data(rest.into()).await;
+			drop(tx);
+			if let Ok(resp) = fut.await {
+				let _ = hyper::body::to_bytes(resp.into_body()).await;
+			}
+		})
+	});
+	let o3 = s.observe(base);
+	let _ = o2;
+	let (r_prev, o4) = s.step(base, &Env::Enc(KeySel::Prev, "accounts"), &o3);
+	if let Some((k, w)) = r_prev.problem {
+		problems.push((format!("{}/after-stalled-request:{}", k, m), format!("{} — after a request ({}) whose upload stalled across a key exchange", w, m)));
+	}
+	let (r_cur, _) = s.step(base, &Env::Enc(KeySel::Cur, "accounts"), &o4);
+	if let Some((k, w)) = r_cur.problem {
+		problems.push((format!("{}/after-stalled-request:{}", k, m), format!("{} — after a request ({}) whose upload stalled across a key exchange", w, m)));
+	} else if r_cur.desync.is_some() {
+		problems.push((
+			format!("C13/current-key-refused/after-stalled-request:{}", m),
+			format!("the key negotiated by the exchange that completed while request {} was still uploading is not the session key afterwards: {:?}", m, r_cur.desync),
+		));
+	}
+	problems
 }
 
 pub fn run(_args: &[String]) -> i32 {
@@ -1283,6 +1354,18 @@ pub fn run(_args: &[String]) -> i32 {
 			acc.desyncs[0]
 		)));
 	}
+	// ---- stalled uploads across a key exchange
+	let stalled_methods: Vec<&'static str> = METHODS.iter().copied().collect();
+	let stalled = par_map(&stalled_methods, nworkers, |i, m| stalled_request_case(&base, &format!("{}/c13-stall{}", root, i), m));
+	for (m, ps) in stalled_methods.iter().zip(stalled.into_iter()) {
+		for (k, w) in ps {
+			if k == "__mach__" {
+				return rep.finish(Some(format!("stalled-request case {}: {}", m, w)));
+			}
+			rep.add_finding(Finding { key: k, what: w, replay: json!({"kind": "stalled-request", "method": m}) });
+		}
+	}
+	rep.cov("stalled_request_cases", json!(stalled_methods.len()));
 	let classes: BTreeMap<String, usize> = {
 		let mut m = BTreeMap::new();
 		for e in alpha.iter() {
